@@ -59,6 +59,8 @@ def polyco(draw, mode=None, extra=0):
     mode = mode or draw(st.sampled_from(["model", "random"]))
     letter = draw(st.sampled_from(EXPO))
     style = draw(st.sampled_from(["full", "full", "full", "short", "short_dot"]))
+    if mode == "model" and extra is not None and draw(st.booleans()):
+        style = "full"  # (entries rounded to six digits no longer agree with each other where they overlap: kept to half of the model texts)
     day0 = draw(st.integers(58000, 59990))
     min0 = draw(st.integers(0, 1439))
     gaps_ms = [draw(st.sampled_from([0, 0, 0, 0.5, 0.9, 1.5, 5000, 3600000, -60000, -span * 30000, 0.2,
@@ -109,8 +111,8 @@ def polyco(draw, mode=None, extra=0):
             base = R0 + 60 * f0 * tau
             rph = dec(F(math.floor(base)) + F(draw(st.integers(0, 10**fdig - 1)), 10**fdig), fdig)
             entries.append({"tmid": ts, "rphase": rph, "coeffs": [sci(x, letter, style=style) for x in c]})
-    return {"mode": mode, "truncated": mode == "model" and m > ncoeff - 1, "f0": dec(f0, 12), "span": span, "ncoeff": ncoeff, "entries": entries, "psr": draw(st.sampled_from(["B1937+21", "J0437-4715"])),
-            "via": draw(st.sampled_from(["stringio", "stringio", "file"]))}
+    return {"mode": mode, "truncated": mode == "model" and (m > ncoeff - 1 or style != "full"), "consistent": style == "full", "f0": dec(f0, 12), "span": span, "ncoeff": ncoeff, "entries": entries, "psr": draw(st.sampled_from(["B1937+21", "J0437-4715"])),
+            "via": draw(st.sampled_from(["stringio", "stringio", "file"])), "ending": draw(st.sampled_from(["one", "one", "one", "none", "blank_line", "blanks"]))}
 
 
 def render(pc, subset=None):
@@ -122,7 +124,8 @@ def render(pc, subset=None):
         cs = e["coeffs"]
         for i in range(0, len(cs), 3):
             lines.append("".join("%25s" % c for c in cs[i : i + 3]))
-    return "\n".join(lines) + "\n"
+    # (text files end in a newline; some editors and concatenations leave an empty line or trailing blanks behind it)
+    return "\n".join(lines) + {"one": "\n", "blank_line": "\n\n", "blanks": "\n   \n", "none": ""}[pc.get("ending", "one")]
 
 
 def load(pc):
@@ -427,6 +430,9 @@ def run_timeat(case, stt):
         # the answer is the guess plus a number of seconds held in one double: its resolution grows with the distance from the guess
         tol += abs(O.T(kw["guess"]) - T) * F(f0) * F(1, 2**52)
     d = abs(pred_exact(back)[0] - tv)
+    if not pc.get("consistent", True):
+        # entries that disagree where they overlap: the time found on one of them may be predicted from the other
+        tol += max([abs(a.phase(T) - b.phase(T)) for a in ents for b in ents if a.contains(T) and b.contains(T)] + [F(0)])
     check(d <= tol, "predictor(time_at(phase)) differs from the phase by {:.3g} cycles (tol {:.3g})", float(d), float(tol))
     dT = abs(O.T(t) - T) * F(f0)
     if pc.get("truncated"):
